@@ -188,6 +188,9 @@ func GetEnv(prop string) *Env {
 				f.Close()
 			}
 		}
+		for k := range e.Known {
+			sim.KnownKeys[k] = true
+		}
 		seed, _ := strconv.ParseUint(os.Getenv("VERIF_SHARD_SEED"), 10, 64)
 		e.S = &Stats{Prop: prop, Shard: e.Shard, Seed: seed, Nontrivial: []uint64{}, Samples: []any{}, Findings: []Finding{}, Classes: map[string]int{}, KnownHits: map[string]int{}, ntSet: map[uint64]struct{}{}}
 		env = e
@@ -254,6 +257,15 @@ var traceBest = map[string]int{}
 // Report handles the violations of one world run. It returns a non-empty
 // message if the case must fail (an unknown violation of this check's property).
 func (e *Env) Report(w *sim.World, rec []int, rerender func() string) string {
+	if len(w.KnownHits) > 0 {
+		e.S.mu.Lock()
+		for id, c := range w.KnownHits {
+			if strings.HasPrefix(id, e.Prop+"/") {
+				e.S.KnownHits[strings.TrimPrefix(id, e.Prop+"/")] += c
+			}
+		}
+		e.S.mu.Unlock()
+	}
 	if len(w.Viols) == 0 {
 		return ""
 	}
